@@ -76,7 +76,7 @@ function genBlock (rng, ctx, nest, label) {
 function genStmt (rng, ctx, nest, label) {
   const P = ctx.P
   const nw = nest > 0 && P.nextSite < 200 ? 2 : 0
-  const k = rng.weighted([6, 4, 2, nw, nw, nw, nw, nw, nw, ctx.depth < 2 ? nw : 0, nw, 2, ctx.depth < 2 ? 1 : 0, nw / 2, nw / 2, nw / 2])
+  const k = rng.weighted([6, 4, 2, nw, nw, nw, nw, nw, nw, ctx.depth < 2 ? nw : 0, nw, 2, ctx.depth < 2 ? 1 : 0, nw / 2, nw / 2, nw / 2, 1])
   switch (k) {
     case 0: return { t: 'expr', e: genOpExpr(rng, ctx, 2, label), wrap: rng.chance(1, 3) ? rng.pick(WRAPS.concat(ctx.f.isAsync ? ['await'] : [], ctx.f.isGen ? ['yield'] : [])) : null }
     case 1: return { t: 'const', name: fresh(P, 'v'), e: genOpExpr(rng, ctx, 2, label), wrap: rng.chance(1, 3) ? rng.pick(WRAPS.concat(['destructuring-default'])) : null }
@@ -89,6 +89,8 @@ function genStmt (rng, ctx, nest, label) {
     case 8: return { t: 'try', body: genBlock(rng, ctx, nest - 1, 'try'), handler: genBlock(rng, ctx, nest - 1, 'catch'), finalizer: rng.chance(1, 2) ? genBlock(rng, ctx, nest - 1, 'finally') : null }
     case 9: return { t: 'nested', f: genFunc(rng, P, ctx.depth + 1, rng.pick(['decl', 'arrowBlock', 'arrowExpr', 'gen', 'async', 'class', 'objlit', P.known ? 'decl-default' : 'arrow-default'])) }
     case 10: return { t: 'block', labelled: rng.chance(1, 3), body: genBlock(rng, ctx, nest - 1, label) }
+    // a string statement that reads like a directive but is not in the prologue (concatenated bundles)
+    case 16: return { t: 'strstmt', text: rng.pick(["'use strict'", '"use strict"', "'use client'", "'use asm'"]) }
     case 11: return { t: 'addassign', target: rng.pick(['local', 'local', 'member', 'member', 'call-member', 'call-computed', 'computed-key-call']), e: genOpExpr(rng, ctx, 1, label, true), id: P.nextOp++ }
     case 13: return { t: 'dowhile', n: rng.range(0, 1), v: fresh(P, 'd'), c: genOpExpr(rng, ctx, 1, 'loop-head'), body: genBlock(rng, { ...ctx, loop: ctx.loop + 1 }, nest - 1, 'loop-body') }
     case 14: return { t: 'forin', v: fresh(P, 'k'), body: genBlock(rng, { ...ctx, loop: ctx.loop + 1 }, nest - 1, 'loop-body') }
@@ -377,6 +379,7 @@ function render (P) {
         emit(`${TARGETS[s.target] || 'acc'} += ${rhs};`)
         break
       }
+      case 'strstmt': emit(`${s.text};`); break
       case 'nested': func(s.f, true); break
       case 'closure':
         emit(`for (let ${s.v} = 0; ${s.v} < ${s.n}; ${s.v}++) {`); ind++
